@@ -367,3 +367,76 @@ func c10CloseAfterBad(x *X) {
 func init() {
 	register(&Scenario{Prop: "C10", Name: "c10/close-after-unencodable-message", Quick: []Bound{{0, 0}, {1, 0}}, Thorough: []Bound{{2, 0}}, Body: c10CloseAfterBad, BudgetQ: 15})
 }
+
+// Stream.Close twice (the second is legal and returns), with a sibling stream and a call on the
+// connection: the sibling goes on echoing, the call completes, and when the connection ends every
+// reader returns.
+func c10DoubleClose(x *X) {
+	mode := x.Choose(2)
+	so := srvOpts{bufSize: 64}
+	if mode == 1 {
+		so.pipelining = true
+	}
+	gap := x.Choose(2) == 1 // quiet between the two Close calls
+	f := newFixture(so, cliOpts{bufSize: 64})
+	sib, e0 := f.conn.NewStream("StreamSvc.Push")
+	st, e1 := f.conn.NewStream("StreamSvc.Push")
+	if e0 != nil || e1 != nil {
+		x.Fail("C10/open-failed/double-close", "NewStream: %v / %v", e0, e1)
+		return
+	}
+	closes := 0
+	vs.GoNamed("closer", func() {
+		st.Close()
+		closes++
+		if gap {
+			vs.Yield()
+		}
+		st.Close()
+		closes++
+	})
+	vs.Quiesce()
+	if closes != 2 {
+		x.Fail("C10/close-blocked/double-close", "%d of 2 Stream.Close calls on one stream returned", closes)
+	}
+	if f.w.streamsEx != 1 {
+		x.Fail("C10/handler-count/double-close", "one of two streams was closed (twice): %d of %d handlers have returned", f.w.streamsEx, f.w.streamsIn)
+	}
+	c := newUcall(0x51, 0, 20, formCall)
+	c.spawn(f.conn)
+	m := streamMsg(0x33, 0)
+	var back []byte
+	var rerr error
+	echoed := false
+	vs.GoNamed("sibling", func() {
+		sib.WriteMessage(&m)
+		rerr = sib.ReadMessage(nil, &back)
+		echoed = true
+	})
+	vs.Quiesce()
+	if !c.ret || c.err != nil {
+		x.Fail("C10/later-op-blocked/double-close", "a call on the connection after a stream was closed twice: returned=%v err=%v", c.ret, c.err)
+	}
+	if !echoed || rerr != nil || !eqBytes(back, transform(m)) {
+		x.Fail("C10/sibling-disturbed/double-close", "the sibling stream after another stream was closed twice: echoed=%v err=%v", echoed, rerr)
+	}
+	blocked := false
+	vs.GoNamed("sibling-reader", func() { var b []byte; sib.ReadMessage(nil, &b); blocked = true })
+	vs.QuiesceKeep()
+	closed := false
+	vs.GoNamed("conn-closer", func() { f.conn.Close(); closed = true })
+	vs.Quiesce()
+	if !closed {
+		x.Fail("C10/conn-close-blocked/double-close", "Conn.Close did not return after a stream was closed twice")
+	}
+	if !blocked {
+		x.Fail("C10/client-reader-blocked/double-close", "the connection was closed: the sibling stream's blocked ReadMessage did not return")
+	}
+	x.Outcome("mode=%d gap=%v closes=%d", mode, gap, closes)
+	f.conn.Close()
+	vs.Quiesce()
+}
+
+func init() {
+	register(&Scenario{Prop: "C10", Name: "c10/double-close", Quick: []Bound{{0, 0}, {1, 0}}, Thorough: []Bound{{2, 0}}, Body: c10DoubleClose, BudgetQ: 15})
+}
